@@ -96,3 +96,5 @@ def run(ctx):
 
     from engine.run import borrow
     borrow(ctx, 'C11', ['WH-RESTORE'], 'a header rewrite in SFM_RDWR mode must leave the file position where the next read / write expects it')
+    borrow(ctx, 'C04', ['WH-CALC'], 'in SFM_RDWR mode the header update must take its lengths from the real file, not from the current position')
+
